@@ -712,7 +712,11 @@ pub fn operation_modulus(left: &Data, right: &Data) -> Data {
             (Data::Double(d1), Data::Double(d2)) => Data::Double(d1 % d2),
             (Data::Integer(d1), Data::Double(d2)) => Data::Double((*d1 as f64) % d2),
             (Data::Double(d1), Data::Integer(d2)) => Data::Double((*d1) % (*d2 as f64)),
-            (Data::Integer(i1), Data::Integer(i2)) => Data::Integer(i1 % i2),
+            (Data::Integer(i1), Data::Integer(i2)) => match i1.checked_rem(*i2) {
+                Some(r) => Data::Integer(r),
+                // Division by zero (or i64::MIN % -1) must not panic the session thread.
+                None => Data::Error("Illegal operands for '%'".to_string()),
+            },
             _ => Data::Error("Internal Error in '%' operation".to_string()),
         }
     } else {
